@@ -104,7 +104,7 @@ bool cp_ref(const Params& P, const Pt& p, std::vector<Expect>& out) {
 struct Reg {
   Reg() {
     for (int first = 0; first < 2; first++) {
-      System s; s.name = first ? "sod_1d[density-first]" : "sod_1d"; s.solution = "sod_1d"; s.prop = "C08"; s.dim = 1;
+      System s; s.name = first ? "sod_1d[density-first]" : "sod_1d"; s.solution = "sod_1d"; s.prop = "C08"; s.dim = 1; s.no_boundary_points = true;  // the xi = x/t lattice is placed relative to the wave fronts
       s.base = [](Params& P) { P.m["Gamma"] = dy(1408); };
       s.frozen.push_back("mu");
       s.derive = [](Params& P) { Q G = P.m["Gamma"]; P.m["mu"] = (LD)((G - 1) / (G + 1)); };  // derived registered parameter
@@ -124,7 +124,7 @@ struct Reg {
       e1_systems().push_back(s);
     }
     {
-      System s; s.name = "cp_normal"; s.prop = "C08"; s.dim = 1;
+      System s; s.name = "cp_normal"; s.prop = "C08"; s.dim = 1; s.no_boundary_points = true;
       s.base = [](Params& P) { P.m["m"] = dy(2560); P.m["sigma"] = dy(1536); P.m["sigma_d"] = dy(717); };
       s.frozen.push_back("x_bar");
       s.alphabet = [](const std::string& n, LD b, LD d) {
